@@ -171,6 +171,22 @@ def _one(w, spec):
                 if n2 is node:
                     allp |= set(p2)
             apps.setdefault(_norm_target(w, tgt, acc_order), []).append([W.simp_set(allp), op])
+    # a local accumulator that starts as a list display and then only grows by appends of the successive results of ONE callee holds the same
+    # sequence whether an element is written into the display or appended (`[a, f()]` + append(f()) per round  ==  `[a]` + append(f()) per round):
+    # its appends are rendered in the canonical sequence form (see _canon_seq)
+    roots = getattr(w, "append_roots", {})
+    for tgt, lst in w.appends.items():
+        if tgt not in roots:
+            continue
+        root, descs, _ln = roots[tgt]
+        if tgt != root or root not in acc_order or len([d for d in descs if d[0] == "list"]) != 1 or any(d[0] != "list" for d in descs):
+            continue
+        if any(op != "append" for _p, op, _n, _g in lst):
+            continue
+        vals = W.simp_set(descs) + sorted({"+append(" + v + ")" for p2, _o, _n, _g in lst for v in W.simp_set(p2)})
+        canon = _canon_seq(vals)
+        if canon != vals:
+            apps[_norm_target(w, tgt, acc_order)] = [[canon, "seq"]]
     # nested function names are local names: render them by definition order
     lf = sorted(getattr(w, "localfns", {}), key=lambda nme: w.localfns[nme].lineno)
     if lf:
